@@ -20,13 +20,13 @@ BASIC = Profile(new=10, edit_refresh=10, push=10, pop=10, goto=6, float=6, sink=
                 rename=3, commit=3, uncommit=2, clean=2, undo=5, redo=3, reset=2, inspect=2, repair=1,
                 gcommit=1, greset=1, gamend=1, spill=1, logclear=0.3, invalid=4, edit_msg=3, rebase=1.5, hidden_ops=2, squash=2.5, pick=2.5, reset_deleted=1, uncommit_auto=1, uncommit_collide=0.7, gconfig=0.5, refresh_p=3, commit_roundtrip=0.7)
 REORDER = Profile(new=6, edit_refresh=8, push=14, pop=12, goto=8, float=10, sink=10, delete=5, hide=4, unhide=4,
-                  commit=4, rename=1, undo=2, invalid=2, upstream=3, edit_msg=3, rebase=2, hidden_ops=3, conflict_reorder=3, sink_mixed=4, squash=4, pick=2, refresh_p=4, split_below=3)
+                  commit=4, rename=1, undo=2, invalid=2, upstream=3, edit_msg=3, rebase=2, hidden_ops=3, conflict_reorder=3, sink_mixed=4, squash=4, pick=2, refresh_p=4, split_below=3, pop_push_roundtrip=3)
 UNDO = Profile(new=6, edit_refresh=6, push=8, pop=8, float=3, sink=3, delete=3, hide=2, unhide=2, rename=2,
                undo=14, redo=10, reset=6, gcommit=1.5, commit=1, invalid=1, extmods=2, edit_msg=3, rebase=1, redo_chain=3, extmods_fail=2, pick=2, reset_deleted=3, refresh_p=2)
 REPAIR = Profile(new=8, edit_refresh=8, push=5, pop=6, delete=2, hide=2, repair=10, gcommit=8, gamend=4, greset=9,
                  gmerge=1, undo=1, commit=1, uncommit=1, inspect=1, twin_commits=3, repair_from_empty=3, extmods_fail=4, reset=2)
 COMMIT = Profile(new=10, edit_refresh=8, push=6, pop=6, commit=12, uncommit=10, float=3, sink=3, undo=3, redo=2,
-                 gcommit=3, delete=2, hide=2, goto=2, repair=1, invalid=1, edit_msg=2, rebase=3, squash=2, pick=3, uncommit_auto=4, uncommit_collide=2.5, commit_roundtrip=3)
+                 gcommit=3, delete=2, hide=2, goto=2, repair=1, invalid=1, edit_msg=2, rebase=3, squash=2, pick=3, uncommit_auto=4, uncommit_collide=2.5, commit_roundtrip=3, uncommit_commit_roundtrip=2.5)
 DIRTY = Profile(new=8, edit_refresh=6, dirty_edit=14, push=10, pop=10, goto=6, float=5, sink=5, delete=4, hide=2,
                 unhide=1, commit=2, undo=4, redo=2, reset=1, rename=1, clean=1, repair=1, edit_msg=1, rebase=2)
 # trial profile for model growth (not used by a registered check until the model has landed)
@@ -317,6 +317,22 @@ class Chooser:
             k = rng.randint(1, len(A))
             self.pending = [{"c": "uncommit", "names": list(reversed(A[:k])), "rt": "end"}]
             return {"c": "commit", "flags": ["allow-empty"], "n": k, "rt": "begin"}
+        if kind == "pop_push_roundtrip":
+            # theorem C07_pop_push_roundtrip on the real program
+            if not A:
+                return {"c": "new", "name": self.fresh_name(view), "meta": self.next_meta()}
+            k = rng.randint(1, len(A))
+            self.pending = [{"c": "push", "flags": [], "n": k, "rt": "end", "rt_label": "pop -n k; push -n k"}]
+            return {"c": "pop", "flags": [], "n": k, "rt": "begin"}
+        if kind == "uncommit_commit_roundtrip":
+            # theorem C12_uncommit_commit_roundtrip on the real program
+            bb = view.get("below_base", 0)
+            if not bb:
+                return {"c": "new", "name": self.fresh_name(view), "meta": self.next_meta()}
+            k = rng.randint(1, min(3, bb))
+            self.pending = [{"c": "commit", "flags": ["allow-empty"], "n": k, "rt": "end",
+                             "rt_label": "uncommit -n k; commit -n k"}]
+            return {"c": "uncommit", "n": k, "names": [], "rt": "begin"}
         if kind == "uncommit":
             k = rng.random()
             if k < 0.5:
